@@ -30,20 +30,21 @@ type Job struct {
 }
 
 type Line struct {
-	Start  string            `json:"start,omitempty"`
-	ID     string            `json:"id,omitempty"`
-	Run    int               `json:"run"`
-	Stage  string            `json:"stage,omitempty"`
-	Err    string            `json:"err,omitempty"`
-	Panic  string            `json:"panic,omitempty"`
-	Digest string            `json:"digest,omitempty"`
-	Files  map[string]string `json:"files,omitempty"`
-	Order  string            `json:"order,omitempty"`
-	CPUms  int64             `json:"cpu_ms"`
-	AllocB uint64            `json:"alloc_bytes"`
-	RSSkB  int64             `json:"maxrss_kb,omitempty"`
-	Pos    []genlab.Pos      `json:"pos,omitempty"`
-	Procs  int               `json:"gomaxprocs,omitempty"`
+	Start   string            `json:"start,omitempty"`
+	ID      string            `json:"id,omitempty"`
+	Run     int               `json:"run"`
+	Stage   string            `json:"stage,omitempty"`
+	Err     string            `json:"err,omitempty"`
+	Panic   string            `json:"panic,omitempty"`
+	PanicAt string            `json:"panic_at,omitempty"`
+	Digest  string            `json:"digest,omitempty"`
+	Files   map[string]string `json:"files,omitempty"`
+	Order   string            `json:"order,omitempty"`
+	CPUms   int64             `json:"cpu_ms"`
+	AllocB  uint64            `json:"alloc_bytes"`
+	RSSkB   int64             `json:"maxrss_kb,omitempty"`
+	Pos     []genlab.Pos      `json:"pos,omitempty"`
+	Procs   int               `json:"gomaxprocs,omitempty"`
 }
 
 func cpuMs() int64 {
@@ -118,7 +119,7 @@ func main() {
 			a0, c0 := ms.TotalAlloc, cpuMs()
 			res := it.Run(hook)
 			runtime.ReadMemStats(&ms)
-			l := Line{ID: it.ID, Run: run, Stage: res.Stage, Panic: res.Panic, CPUms: cpuMs() - c0, AllocB: ms.TotalAlloc - a0, Procs: runtime.GOMAXPROCS(0), RSSkB: maxRSS()}
+			l := Line{ID: it.ID, Run: run, Stage: res.Stage, Panic: res.Panic, PanicAt: res.PanicAt, CPUms: cpuMs() - c0, AllocB: ms.TotalAlloc - a0, Procs: runtime.GOMAXPROCS(0), RSSkB: maxRSS()}
 			if res.Err != nil {
 				l.Err = res.Err.Error()
 				if job.Errs {
